@@ -530,6 +530,488 @@ def t18_stack(run, fx, floors=True):
         run.anchor_missing(rule, "ArgumentsStack constructions over fixed arrays (found %d)" % n)
 
 
+# ---- T18-PATH: per-operator path construction ---------------------------------------------------------------------------------
+# Linear forms over the current point (X, Y) on entry to the segment walked and the operands a[k]: {atom: coefficient}.
+
+def _lf(*pairs):
+    d = {}
+    for a, c in pairs:
+        d[a] = d.get(a, 0) + c
+    return {a: c for a, c in d.items() if c}
+
+
+def _add(f, *atoms):
+    d = dict(f)
+    for a in atoms:
+        d[a] = d.get(a, 0) + 1
+    return {a: c for a, c in d.items() if c}
+
+
+X0, Y0 = _lf(("X", 1)), _lf(("Y", 1))
+
+
+def _A(k):
+    return ("a", k)
+
+
+def _curve(X, Y, a, k):
+    """rrcurveto group starting at operand k: the three points and the new current point"""
+    c1 = (_add(X, _A(k)), _add(Y, _A(k + 1)))
+    c2 = (_add(c1[0], _A(k + 2)), _add(c1[1], _A(k + 3)))
+    p = (_add(c2[0], _A(k + 4)), _add(c2[1], _A(k + 5)))
+    return ("curve_to", c1 + c2 + p), p
+
+
+def _hcurve(X, Y, k, extra):
+    """dxa dxb dyb dyc [dxf]: starts horizontal, ends vertical"""
+    c1 = (_add(X, _A(k)), Y)
+    c2 = (_add(c1[0], _A(k + 1)), _add(c1[1], _A(k + 2)))
+    p = (_add(c2[0], _A(k + 4)) if extra else c2[0], _add(c2[1], _A(k + 3)))
+    return ("curve_to", c1 + c2 + p), p
+
+
+def _vcurve(X, Y, k, extra):
+    """dya dxb dyb dxc [dyf]: starts vertical, ends horizontal"""
+    c1 = (X, _add(Y, _A(k)))
+    c2 = (_add(c1[0], _A(k + 1)), _add(c1[1], _A(k + 2)))
+    p = (_add(c2[0], _A(k + 3)), _add(c2[1], _A(k + 4)) if extra else c2[1])
+    return ("curve_to", c1 + c2 + p), p
+
+
+def _line(X, Y, dx=None, dy=None):
+    p = (_add(X, _A(dx)) if dx is not None else X, _add(Y, _A(dy)) if dy is not None else Y)
+    return ("line_to", p), p
+
+
+def _alt_curves(first_h, n):
+    """all sequences of n alternating curves, each with or without the optional last operand; -> (calls, point, operands used)"""
+    out = [([], (X0, Y0), 0)]
+    for j in range(n):
+        nxt = []
+        for calls, (X, Y), k in out:
+            for extra in (False, True):
+                f = _hcurve if (j % 2 == 0) == first_h else _vcurve
+                c, p = f(X, Y, k, extra)
+                nxt.append((calls + [c], p, k + (5 if extra else 4)))
+        out = nxt
+    return out
+
+
+def _seq(*steps):
+    """steps: functions (X, Y, k) -> (call, point, used); -> one variant"""
+    calls, P, k = [], (X0, Y0), 0
+    for st in steps:
+        c, P, used = st(P[0], P[1], k)
+        calls.append(c)
+        k += used
+    return (calls, P, k)
+
+
+def _st_line(X, Y, k):
+    c, p = _line(X, Y, k, k + 1)
+    return c, p, 2
+
+
+def _st_hline(X, Y, k):
+    c, p = _line(X, Y, dx=k)
+    return c, p, 1
+
+
+def _st_vline(X, Y, k):
+    c, p = _line(X, Y, dy=k)
+    return c, p, 1
+
+
+def _st_curve(X, Y, k):
+    c, p = _curve(X, Y, None, k)
+    return c, p, 6
+
+
+def _st_hh(X, Y, k):
+    c, p = _hcurve(X, Y, k, False)
+    # hhcurveto: dxa dxb dyb dxc - the curve ends horizontal as well: the last operand moves x
+    c1x, c1y, c2x, c2y = c[1][0], c[1][1], c[1][2], c[1][3]
+    p = (_add(c2x, _A(k + 3)), c2y)
+    return ("curve_to", (c1x, c1y, c2x, c2y) + p), p, 4
+
+
+def _st_vv(X, Y, k):
+    c, p = _vcurve(X, Y, k, False)
+    c1x, c1y, c2x, c2y = c[1][0], c[1][1], c[1][2], c[1][3]
+    p = (c2x, _add(c2y, _A(k + 3)))
+    return ("curve_to", (c1x, c1y, c2x, c2y) + p), p, 4
+
+
+NONE = ([], (X0, Y0), 0)
+
+
+def _flex_variants(kind):
+    A = _A
+    X, Y = X0, Y0
+    if kind == "flex":
+        c1, p1 = _curve(X, Y, None, 0)
+        c2, p2 = _curve(p1[0], p1[1], None, 6)
+        return [([c1, c2], p2, 12)]
+    if kind == "hflex":
+        c1 = (_add(X, A(0)), Y)
+        c2 = (_add(c1[0], A(1)), _add(Y, A(2)))
+        p3 = (_add(c2[0], A(3)), c2[1])
+        c4 = (_add(p3[0], A(4)), c2[1])
+        c5 = (_add(c4[0], A(5)), Y)
+        p6 = (_add(c5[0], A(6)), Y)
+        return [([("curve_to", c1 + c2 + p3), ("curve_to", c4 + c5 + p6)], p6, 7)]
+    if kind == "hflex1":
+        c1 = (_add(X, A(0)), _add(Y, A(1)))
+        c2 = (_add(c1[0], A(2)), _add(c1[1], A(3)))
+        p3 = (_add(c2[0], A(4)), c2[1])
+        c4 = (_add(p3[0], A(5)), c2[1])
+        c5 = (_add(c4[0], A(6)), _add(c4[1], A(7)))
+        p6 = (_add(c5[0], A(8)), Y)
+        return [([("curve_to", c1 + c2 + p3), ("curve_to", c4 + c5 + p6)], p6, 9)]
+    if kind == "flex1":
+        c1, p1 = _curve(X, Y, None, 0)
+        c4 = (_add(p1[0], A(6)), _add(p1[1], A(7)))
+        c5 = (_add(c4[0], A(8)), _add(c4[1], A(9)))
+        out = []
+        for p6, tag in (((_add(c5[0], A(10)), Y), "dx"), ((X, _add(c5[1], A(10))), "dy")):
+            out.append(([c1, ("curve_to", c4 + c5 + p6)], p6, 11, tag))
+        return out
+
+
+def _move_variants(kind):
+    if kind == "r":
+        p = (_add(X0, _A(0)), _add(Y0, _A(1)))
+        n = 2
+    elif kind == "h":
+        p, n = (_add(X0, _A(0)), Y0), 1
+    else:
+        p, n = (X0, _add(Y0, _A(0))), 1
+    return [([("move_to", p)], p, n)]
+
+
+# function -> (prefix outcomes, iteration variants, exit variants); straight-line operators have only `whole`
+PATH_SPEC = {
+    "parse_move_to": dict(whole=_move_variants("r")),
+    "parse_horizontal_move_to": dict(whole=_move_variants("h")),
+    "parse_vertical_move_to": dict(whole=_move_variants("v")),
+    "parse_line_to": dict(prefix=[NONE], iteration=[_seq(_st_line)], exit=[NONE]),
+    "parse_horizontal_line_to": dict(prefix=[NONE], iteration=[_seq(_st_hline, _st_vline)], exit=[NONE, _seq(_st_hline)]),
+    "parse_vertical_line_to": dict(prefix=[NONE], iteration=[_seq(_st_vline, _st_hline)], exit=[NONE, _seq(_st_vline)]),
+    "parse_curve_to": dict(prefix=[NONE], iteration=[_seq(_st_curve)], exit=[NONE]),
+    "parse_curve_line": dict(prefix=[NONE], iteration=[_seq(_st_curve)], exit=[_seq(_st_line)]),
+    "parse_line_curve": dict(prefix=[NONE], iteration=[_seq(_st_line)], exit=[_seq(_st_curve)]),
+    "parse_hh_curve_to": dict(prefix=[NONE, ([], (X0, _add(Y0, _A(0))), 1)], iteration=[_seq(_st_hh)], exit=[NONE]),
+    "parse_vv_curve_to": dict(prefix=[NONE, ([], (_add(X0, _A(0)), Y0), 1)], iteration=[_seq(_st_vv)], exit=[NONE]),
+    "parse_hv_curve_to": dict(prefix=[NONE], iteration=_alt_curves(True, 2), exit=[NONE] + _alt_curves(True, 1)),
+    "parse_vh_curve_to": dict(prefix=[NONE], iteration=_alt_curves(False, 2), exit=[NONE] + _alt_curves(False, 1)),
+    "parse_flex": dict(whole=_flex_variants("flex")),
+    "parse_hflex": dict(whole=_flex_variants("hflex")),
+    "parse_hflex1": dict(whole=_flex_variants("hflex1")),
+    "parse_flex1": dict(whole=_flex_variants("flex1")),
+}
+
+
+class _Und(Exception):
+    pass
+
+
+class _Forms:
+    """linear forms of the terms of one walked path. Operands: `stack.at(e)` is a[e - i] with i the index variable's value on entry to
+    the segment (a[e] when the segment starts at the function entry), `stack.pop()` on the reversed copy is the next operand in path order."""
+
+    def __init__(self, b, calls, ivar, outer):
+        self.b, self.ivar, self.outer = b, ivar, outer
+        self.pop_ord = {}
+        n = 0
+        for bb, name, args, path in calls:
+            if (path or name or "").endswith("ArgumentsStack::<'a, T>::pop"):
+                self.pop_ord[bb] = n
+                n += 1
+        self.npop = n
+
+    def int_form(self, t):
+        t = sym.strip(t)
+        k = t[0]
+        if k == "c" and isinstance(t[1], int) and not isinstance(t[1], bool):
+            return (0, t[1])
+        if k == "init":
+            if self.ivar is not None and t[1] == self.ivar:
+                return (1, 0)
+            raise _Und("integer %s" % t[1])
+        if k == "bin" and t[1] in ("Add", "Sub", "AddWithOverflow", "SubWithOverflow"):
+            a, c = self.int_form(t[2]), self.int_form(t[3])
+            sg = 1 if t[1].startswith("Add") else -1
+            return (a[0] + sg * c[0], a[1] + sg * c[1])
+        raise _Und("index expression")
+
+    def form(self, t):
+        t = sym.strip(t)
+        k = t[0]
+        if k == "init":
+            if t[1] == "(*self).x":
+                return dict(X0)
+            if t[1] == "(*self).y":
+                return dict(Y0)
+            if self.outer is not None and t[1] in self.outer:
+                return self.outer[t[1]]
+            raise _Und("value of %s" % t[1])
+        if k == "c":
+            if re.match(r"^-?0(\.0+)?(e0)?(_?f32)?$", str(t[3]).strip()) or t[1] == 0:
+                return {}
+            raise _Und("constant %s" % (t[3],))
+        if k == "bin" and t[1] in ("Add", "Sub"):
+            a, c = self.form(t[2]), self.form(t[3])
+            d = dict(a)
+            for at, co in c.items():
+                d[at] = d.get(at, 0) + (co if t[1] == "Add" else -co)
+            return {at: co for at, co in d.items() if co}
+        if k == "call":
+            p = t[4] or t[1] or ""
+            if p.endswith("ArgumentsStack::<'a, T>::at") and len(t[2]) == 2:
+                ci, cc = self.int_form(t[2][1])
+                if self.ivar is None:
+                    if ci != 0:
+                        raise _Und("index")
+                    return {_A(cc): 1}
+                if ci != 1:
+                    raise _Und("operand index not relative to the loop index")
+                return {_A(cc): 1}
+            if p.endswith("ArgumentsStack::<'a, T>::pop") and t[3] in self.pop_ord:
+                return {_A(self.pop_ord[t[3]]): 1}
+        raise _Und("term %s" % sym.show(t)[:60])
+
+
+def _loop_of(b, names=("at", "pop")):
+    """the loop that consumes the operands: (header, body) of the outermost natural loop containing a call of at / pop"""
+    import loops
+    best = None
+    for h, body, srcs in loops.natural_loops(b):
+        if any((t["callee"].get("path") or "").endswith(("ArgumentsStack::<'a, T>::at", "ArgumentsStack::<'a, T>::pop")) for bi, t in b.calls() if bi in body):
+            if best is None or len(body) > len(best[1]):
+                best = (h, body)
+    return best
+
+
+def _is_ok_return(env):
+    r = env.get("_0")
+    return r is not None and r[0] == "agg" and r[2] == "Ok"
+
+
+def _fmt(f):
+    if not f:
+        return "0"
+    out = []
+    for a, c in sorted(f.items(), key=lambda kv: (0, kv[0]) if isinstance(kv[0], str) else (1, kv[0][1])):
+        nm = a if isinstance(a, str) else "a%d" % a[1]
+        out.append(("" if c == 1 else "-" if c == -1 else "%s*" % c) + nm)
+    return "+".join(out).replace("+-", "-")
+
+
+def _outcome(pw, b, path, ivar, outer, drawing):
+    """(calls [(name, forms)], (X, Y) forms at the end, operands consumed | None)"""
+    conds, env, end, how = path
+    calls = env.get(pw.Walk.CALLS, ())
+    F = _Forms(b, calls, ivar, outer)
+    out = []
+    for bb, name, args, cpath in calls:
+        short = (cpath or name or "").split("::")[-1]
+        if short in drawing and "outline::Builder" in (cpath or name or ""):
+            out.append((short, tuple(F.form(a) for a in args[1:])))
+    X = F.form(env["(*self).x"]) if "(*self).x" in env else dict(X0)
+    Y = F.form(env["(*self).y"]) if "(*self).y" in env else dict(Y0)
+    used = None
+    if ivar is not None and ivar in env:
+        ci, cc = F.int_form(env[ivar])
+        if ci != 1:
+            raise _Und("loop index")
+        used = cc
+    elif ivar is not None:
+        used = 0
+    if F.npop:
+        used = F.npop
+    return out, (X, Y), used, F
+
+
+def _match(outcome, variants):
+    calls, P, used, F = outcome
+    for v in variants:
+        vcalls, vP, vused = v[0], v[1], v[2]
+        if len(vcalls) != len(calls):
+            continue
+        if all(c[0] == vc[0] and tuple(c[1]) == tuple(vc[1]) for c, vc in zip(calls, vcalls)) and P == tuple(vP) and (used is None or used == vused):
+            return v
+    return None
+
+
+def _show_outcome(o):
+    calls, P, used, F = o
+    return "%s; current point (%s, %s); %s operand(s)" % (
+        ", ".join("%s(%s)" % (n, ", ".join(_fmt(f) for f in fs)) for n, fs in calls) or "no drawing call", _fmt(P[0]), _fmt(P[1]),
+        "?" if used is None else used)
+
+
+def t18_path(run, fx, floors=True):
+    import pathwalk as pw
+    rule = "T18-PATH"
+    run.rule(rule, "per-operator path construction (Type 2 charstring format, path construction operators and flex): for each of the 17 operator "
+                   "handlers of CharStringParser the drawing calls and the new current point, as linear forms in the current point and the operands, "
+                   "equal the specification's - straight-line handlers as a whole; loop handlers per segment (entry to loop, one iteration, loop "
+                   "to return), with operands named relative to the loop index (`at(i + k)`) or in pop order; the operands consumed equal the "
+                   "group size; flex1 chooses dx when |dx1+..+dx5| > |dy1+..+dy5|. A handler whose terms are not linear in these is undecided, "
+                   "counted against the floor, never reported")
+    drawing = ("move_to", "line_to", "curve_to")
+    decided = 0
+    for fn, spec in sorted(PATH_SPEC.items()):
+        bs = [b for b in fx.bodies if b.path.endswith("CharStringParser::<'_, B>::" + fn) and b.kind != "Closure"]
+        if len(bs) != 1:
+            if floors:
+                run.anchor_missing(rule, "CharStringParser::" + fn)
+            continue
+        b = bs[0]
+        key = "path|%s" % fn
+        rets = [bi for bi in range(len(b.blocks)) if b.term(bi)["k"] == "return"]
+        try:
+            problems = []
+            if "whole" in spec:
+                w = pw.Walk(b, None, [], start=0)
+                if w.dropped:
+                    raise _Und("; ".join(w.dropped))
+                paths = [p for p in w.paths if p[3] == "return" and _is_ok_return(p[1])]
+                if not paths:
+                    raise _Und("no path to Ok")
+                for p in paths:
+                    o = _outcome(pw, b, p, None, None, drawing)
+                    o = (o[0], o[1], None, o[3])
+                    v = _match(o, spec["whole"])
+                    if v is None:
+                        problems.append("draws %s" % _show_outcome(o))
+                    elif len(v) > 3:
+                        pr = _flex1_choice(pw, b, p, v[3], o[3])
+                        if pr:
+                            problems.append(pr)
+            else:
+                lp = _loop_of(b)
+                if lp is None:
+                    raise _Und("no loop over the operands")
+                h, body = lp
+                ivar = _index_var(b, body)
+                # entry -> loop
+                w0 = pw.Walk(b, None, [h], start=0)
+                # one iteration, and loop -> return
+                w1 = pw.Walk(b, None, [h], start=h)
+                if w0.dropped or w1.dropped:
+                    raise _Und("; ".join(w0.dropped + w1.dropped))
+                pre = [p for p in w0.paths if p[3] == "stop"]
+                its = [p for p in w1.paths if p[3] == "stop"]
+                exits = [p for p in w1.paths if p[3] == "return" and _is_ok_return(p[1])]
+                if not pre or not its or not exits:
+                    raise _Und("segments of the loop not found")
+                outer_sets = []
+                for p in pre:
+                    o = _outcome(pw, b, p, None, None, drawing)
+                    used = None
+                    if ivar is not None and ivar in p[1]:
+                        ci, cc = o[3].int_form(p[1][ivar])
+                        if ci != 0:
+                            raise _Und("initial loop index")
+                        used = cc
+                    o = (o[0], o[1], used, o[3])
+                    if _match(o, spec["prefix"]) is None:
+                        problems.append("before the loop: %s" % _show_outcome(o))
+                    # loop-invariant locals set before the loop (named, never assigned in it)
+                    inv = {}
+                    for k_, t_ in p[1].items():
+                        if k_ in (pw.Walk.CALLS, "(*self).x", "(*self).y", ivar) or not re.match(r"^[a-z_][a-z0-9_]*$", k_ or ""):
+                            continue
+                        if _assigned_in(b, body, k_):
+                            continue
+                        try:
+                            inv[k_] = {("abs",) + a[1:] if isinstance(a, tuple) else a + "0": c for a, c in o[3].form(t_).items()}
+                        except _Und:
+                            pass
+                    outer_sets.append(inv)
+                for seg, paths, variants in (("one iteration", its, spec["iteration"]), ("after the last group", exits, spec["exit"])):
+                    for p in paths:
+                        for inv in (outer_sets or [None]):
+                            o = _outcome(pw, b, p, ivar, inv, drawing)
+                            if seg != "one iteration" and not o[3].npop:
+                                # the index variable is dead after the loop: operands are identified by their offsets alone
+                                o = (o[0], o[1], None, o[3])
+                            if _match(o, variants) is None:
+                                problems.append("%s: %s" % (seg, _show_outcome(o)))
+                                break
+            decided += 1
+            if problems:
+                run.fail(rule, key, "CharStringParser::%s does not build the path the Type 2 specification assigns to the operator: %s" % (fn, "; ".join(sorted(set(problems))[:3])),
+                         "%s:%s" % (b.file, b.line))
+            else:
+                run.ok(rule, "%s: drawing calls, current point and operand count equal the specification on every path" % fn)
+        except _Und as e:
+            decided -= 0
+            run.notes.append("%s: %s not decided (%s)" % (rule, fn, e))
+    if floors:
+        run.floor(rule, "operator handlers decided", decided, 17)
+
+
+def _index_var(b, body):
+    """name of the usize local that indexes `at` inside the loop and is assigned in it"""
+    for l in range(b.arg_count + 1, len(b.locals)):
+        nm = b.local_name(l)
+        if nm and b.local_ty(l) == "usize" and _assigned_in(b, body, nm):
+            return nm
+    return None
+
+
+def _assigned_in(b, body, name):
+    for bi in body:
+        for st in b.stmts(bi):
+            if st["k"] == "assign" and not st["p"]["p"] and b.local_name(st["p"]["l"]) == name:
+                return True
+        t = b.term(bi)
+        if t["k"] == "call" and not t["dest"]["p"] and b.local_name(t["dest"]["l"]) == name:
+            return True
+    return False
+
+
+def _flex1_choice(pw, b, path, tag, F):
+    """the path that moves x (tag dx) must be the one on which |sum dx| > |sum dy| holds, the other its negation"""
+    conds = path[0]
+    want_dx = _lf(*[(_A(k), 1) for k in (0, 2, 4, 6, 8)])
+    want_dy = _lf(*[(_A(k), 1) for k in (1, 3, 5, 7, 9)])
+    for d, v in conds:
+        d = sym.strip(d)
+        if d[0] != "bin" or d[1] not in ("Gt", "Lt", "Ge", "Le"):
+            continue
+        sides = []
+        for s_ in (d[2], d[3]):
+            s_ = sym.strip(s_)
+            if s_[0] == "call" and (s_[4] or s_[1] or "").endswith("::abs") and len(s_[2]) == 1:
+                try:
+                    sides.append(F.form(s_[2][0]))
+                except _Und:
+                    sides.append(None)
+            else:
+                sides.append(None)
+        if None in sides:
+            continue
+        truth = not (v == 0)
+        op = d[1]
+        l, r = sides
+        if op in ("Lt", "Le"):
+            l, r, op = r, l, {"Lt": "Gt", "Le": "Ge"}[op]
+        if not truth:
+            l, r, op = r, l, {"Gt": "Ge", "Ge": "Gt"}[op]
+        # now: l op r holds on this path
+        if tag == "dx":
+            ok = (l == want_dx and r == want_dy and op == "Gt")
+        else:
+            ok = (l == want_dy and r == want_dx and op == "Ge")
+        if not ok:
+            return "flex1 takes the last operand as %s when |%s| %s |%s|" % (tag, _fmt(l), ">" if op == "Gt" else ">=", _fmt(r))
+        return None
+    return None
+
+
 def check(run, fx, tier, floors=True):
     import speclayout
     speclayout.rule_layouts(run, fx, "T18-LAYOUT", ["cff"], floors)
@@ -545,5 +1027,7 @@ def check(run, fx, tier, floors=True):
     t18_bias(run, fx, floors)
     t18_lim(run, fx, floors)
     t18_vis(run, fx, floors)
+    if floors or any("CharStringParser::<'_, B>::parse_" in b.path for b in fx.bodies):
+        t18_path(run, fx, floors)
     recursion.run_rule(run, fx, "C01-a", lambda f: any("cff::charstring" in p or "cff::cff2" in p or "cff::outline" in p for p in f.local_paths),
                        floors_n=1 if floors else None)
